@@ -443,3 +443,12 @@ def a3(ctx):
     if n < 2:
         raise AnalysisError("vdir: fewer than 2 temporary-file writers found")
     return obs
+
+
+@rule("C04", "B4", floor=4, kind="S",
+      desc="every view reads the structure the writer updates last: the tree store's collection tag is computed from "
+           "the index, like the listing (same obligations as C08/G2) - a tag taken from HEAD shows the new state after a "
+           "crash between the ref update and the index rename while listing and GET still show the old one")
+def b4(ctx):
+    from .c08 import g2
+    return g2(ctx)
